@@ -223,7 +223,7 @@ class LiftGen:
     def expr(s, depth):
         """int-typed expression + trace"""
         s.n += 1; me = s.n
-        opts = ['var', 'call0'] + ([f for f in ('call1', 'call2', 'callcall', 'add', 'div', 'sub', 'mul', 'if', 'let', 'tuple', 'while', 'whilematch', 'unitop', 'array', 'constr', 'dyncall', 'neg', 'matchop') if f in s.forms] if depth > 0 else [])
+        opts = ['var', 'call0'] + ([f for f in ('call1', 'call2', 'callcall', 'add', 'div', 'sub', 'mul', 'if', 'let', 'tuple', 'while', 'whilematch', 'whileifelse', 'unitop', 'array', 'constr', 'dyncall', 'neg', 'matchop') if f in s.forms] if depth > 0 else [])
         k = s.ex.choose([(True, o) for o in opts]); GEN_USED.add(k)
         if k == 'var': return s.var('v%d' % me), []
         if k == 'call0': return s.call('g%d' % me, []), [('call', 'g%d' % me)]
@@ -300,6 +300,17 @@ class LiftGen:
             c = s.L('EMatch', expr=mkbox(sc), arms=PyVec([Agg(LA.key, 0, [zero, lit(first)])]), default=ms.some(mkbox(lit(not first))), ty=s.ty('TBool'))
             w = s.L('EWhile', cond=mkbox(c), body=mkbox(b), ty=s.ty('TUnit'))
             return s.L('ELet', name=mkstr('w%d' % me), value=mkbox(w), body=mkbox(s.var('v%d' % me)), ty=s.ty('TInt32')), [('while', tsc, tb)]
+        if k == 'whileifelse':
+            # while C { if D { T } else { E } } with T / E each (solver decision) empty `()` or an effect: the `if` stands in effect position, an empty branch must not take the other one with it
+            c, tc = s.boolean(depth - 1); d, td = s.boolean(0); a, ta = s.expr(depth - 1); b, tb = s.expr(depth - 1)
+            unit = lambda: s.L('EPrim', value=Agg(s.PR.key, s.PR.vindex('Unit'), [UNIT_]), ty=s.ty('TUnit'))
+            eff = lambda nm, v: s.L('ELet', name=mkstr(nm), value=mkbox(v), body=mkbox(unit()), ty=s.ty('TUnit'))
+            shape = s.ex.choose([(True, o) for o in ('then-empty', 'else-empty', 'both')])
+            th, tth = (unit(), []) if shape == 'then-empty' else (eff('ut%d' % me, a), ta)
+            el, tel = (unit(), []) if shape == 'else-empty' else (eff('ue%d' % me, b), tb)
+            body = s.L('EIf', cond=mkbox(d), then_branch=mkbox(th), else_branch=mkbox(el), ty=s.ty('TUnit'))
+            w = s.L('EWhile', cond=mkbox(c), body=mkbox(body), ty=s.ty('TUnit'))
+            return s.L('ELet', name=mkstr('w%d' % me), value=mkbox(w), body=mkbox(s.var('v%d' % me)), ty=s.ty('TInt32')), [('while', tc, td + [('if', tth, tel)])]
         if k == 'while':
             c, tc = s.boolean(depth - 1); b, tb = s.expr(depth - 1)
             w = s.L('EWhile', cond=mkbox(c), body=mkbox(b), ty=s.ty('TUnit'))
@@ -751,7 +762,7 @@ def ob_go_lowering(r, tier, seed, depth, forms, top):
 def obligations():
     obs = [Ob('O9.1-effect-predicate-d1', 'DCE effect predicate is sound, depth 1', ob_effect_predicate, ('quick', 'thorough'), 2, dict(depth=1)),
            Ob('O9.1-effect-predicate-d2', 'DCE effect predicate is sound, depth 2', ob_effect_predicate, ('quick', 'thorough'), 10, dict(depth=2))]
-    obs += [Ob('O9.3-anf-order-call-d1', 'ANF keeps the source effect trace: f(A1, A2), depth 1', ob_anf_order, ('quick', 'thorough'), 3, dict(depth=1, forms=['call1', 'call2', 'callcall', 'add', 'if', 'let', 'tuple', 'while', 'whilematch', 'unitop'], top='call')),
+    obs += [Ob('O9.3-anf-order-call-d1', 'ANF keeps the source effect trace: f(A1, A2), depth 1', ob_anf_order, ('quick', 'thorough'), 3, dict(depth=1, forms=['call1', 'call2', 'callcall', 'add', 'if', 'let', 'tuple', 'while', 'whilematch', 'whileifelse', 'unitop'], top='call')),
             Ob('O9.3-anf-order-bool-d1', 'ANF keeps short-circuit evaluation of && / ||', ob_anf_order, ('quick', 'thorough'), 3, dict(depth=1, forms=['and', 'or', 'not', 'less', 'call1', 'reads'], top='bool')),
             Ob('O9.3-anf-order-call-d2-if', 'ANF keeps the source effect trace: f(A), A of depth 2 over calls / + / if with && and ||', ob_anf_order, ('thorough',), 100, dict(depth=2, forms=['call1', 'add', 'if', 'and', 'or'], top='call1')),
             Ob('O9.3-anf-order-call-d2-let', 'ANF keeps the source effect trace: f(A1, A2), depth 2 over calls / callee expressions / let', ob_anf_order, ('thorough',), 100, dict(depth=2, forms=['call1', 'callcall', 'let'], top='call'))]
@@ -770,7 +781,7 @@ def obligations():
     obs += [Ob('O9.4-go-lowering-agg-d1', 'Go lowering keeps the order of array items, negation operands and match scrutinees in operand position (struct literals and dynamic calls need type definitions in the Go environment: ANF level only, O9.3-agg)', ob_go_lowering, ('quick', 'thorough'), 5, dict(depth=1, forms=['call1', 'array', 'neg', 'matchop'], top='call'))]
     obs += [Ob('O9.3-anf-order-go', 'ANF keeps a `go` in tail / let / if position', ob_anf_order, ('quick', 'thorough'), 1, dict(depth=0, forms=[], top='go')),
             Ob('O9.4-go-lowering-go', 'Go lowering emits the go statement for a `go` in tail / let / if position', ob_go_lowering, ('quick', 'thorough'), 1, dict(depth=0, forms=[], top='go'))]
-    obs += [Ob('O9.4-go-lowering-call-d1', 'Go lowering keeps the effect trace: f(A1, A2), depth 1 (incl. while / if / let)', ob_go_lowering, ('quick', 'thorough'), 10, dict(depth=1, forms=['call1', 'add', 'if', 'let', 'while', 'whilematch', 'unitop'], top='call')),
+    obs += [Ob('O9.4-go-lowering-call-d1', 'Go lowering keeps the effect trace: f(A1, A2), depth 1 (incl. while / if / let)', ob_go_lowering, ('quick', 'thorough'), 10, dict(depth=1, forms=['call1', 'add', 'if', 'let', 'while', 'whilematch', 'whileifelse', 'unitop'], top='call')),
             Ob('O9.4-go-lowering-bool-d1', 'Go lowering keeps short-circuit branches', ob_go_lowering, ('quick', 'thorough'), 5, dict(depth=1, forms=['and', 'or', 'not', 'less', 'read1'], top='bool'))]
     return obs
 
